@@ -994,6 +994,9 @@ def simp_cmp_int(expr_simp, expr):
         # ({X, 0} == int) => X == int[:]
         src = expr.args[0].args[0]
         int_val = int(expr.args[1])
+        if int_val >> src.size:
+            # The high part of the constant is not zero
+            return ExprInt(0, 1)
         new_int = ExprInt(int_val, src.size)
         expr = expr_simp(
             ExprOp(TOK_EQUAL, src, new_int)
